@@ -120,7 +120,8 @@ def matrix(seeds):
             return os.path.basename(sdir), seed, rr.returncode
         finally:
             shutil.rmtree(d, ignore_errors=True)
-    dirs = [d for d in dirs if not json.load(open(os.path.join(d, 'meta.json'))).get('obsolete')]
+    dirs = [d for d in dirs if not json.load(open(os.path.join(d, 'meta.json'))).get('obsolete')
+            and not json.load(open(os.path.join(d, 'meta.json'))).get('not_covered')]
     jobs = [(d, s) for d in dirs for s in seeds]
     res = {}
     with ThreadPoolExecutor(max_workers=int(os.environ.get('MATRIX_JOBS', '2'))) as ex:
